@@ -16,7 +16,7 @@ func init() {
 			"is a branch to a panic or error exit that lies on every path to a normal return, against the documented constant (evaluated from the initialisers); the square roots apply the +1 correction exactly when r² < d, in both precisions; the rounding-mode dispatch of DivIntByU64ToBigDec selects the matching division; SigFigRound does not write its argument.",
 		NotCovered:  []string{"every numeric error bound (Exp2 10^-18, LogBase2 10^-32, Pow precision, sig-fig half-unit)", "monotonicity of the square roots", "binary-search post-conditions"},
 		Assumptions: []string{"math/big.Int.Sqrt returns the floor square root"},
-		MinObl:      72,
+		MinObl:      78,
 		Run:         runC13,
 	})
 }
